@@ -7,7 +7,12 @@ Q D Q^T, Q^T Q, least-squares normal equations, inv(A)%B == solve).
 Pivoted LU: the model (getrf_block/getrf_recursive/getrf/lu_solve of C02BlkModel.v) is compared EXACTLY (factor, pivot vector,
 exception) on matrices whose whole run is exactly representable (gen_lu_exact: unique pivots, ties, singular), and with
 pivots exact / factor 1e-12 on gen_lu_struct; blocked potrf (potrf_rec) incl. the return value and the matrix left behind
-on matrices that are not positive definite."""
+on matrices that are not positive definite.
+Extension: pivoted Cholesky pstrf (op P: rank, matrix left behind, pivot vector), the semi-definite solver (S semi / Z semi) and
+cholesky_decomposition::update (op U) are modelled (C02PstrfModel.v, C02SemiModel.v, C02UpdModel.v) and run next to the C++ on
+every run: EXACTLY over Q on inputs built so that every square root is taken of the square of a power of two (reference runs in
+the generator accept/reject candidates), and over IEEE doubles (the same extracted functions instantiated with OCaml floats, 1e-9)
+on B B^T / random SPD inputs whose pivot order is separated from rounding noise."""
 import os, sys, re, math
 from fractions import Fraction as Fr
 sys.path.insert(0, os.path.dirname(os.path.abspath(__file__)))
@@ -772,10 +777,12 @@ def key_of(line, build, msg):
 def main():
     ck = Check(PID)
     ck.trusted = DEFAULT_TRUSTED + ["modelled not verified: OpenBLAS (trsm/trsv/gemm/syrk bindings), floating-point rounding (monitored by residual bounds), std::sqrt",
-                                    "Python fractions (exact evaluation of the defining equations on the implementation's output)"]
+                                    "Python fractions (exact evaluation of the defining equations on the implementation's output)",
+                                    "OCaml float arithmetic = IEEE double for the double-model streams (F lines of ocaml/c02_driver.ml)"]
     ck.assumptions = ["systems of the documented kinds: non-singular triangular, symmetric positive definite (semi-definite for the semi tag), full rank for indefinite_full_rank; condition <= 1e8 (1e3 for conjugate gradient, whose stopping rule is an absolute 1e-10)",
                       "exact stream: integer factors with power-of-two or unit diagonals so that every intermediate value is a small dyadic rational (float arithmetic exact in any summation order)",
                       "pivoted LU exact stream: matrices built so that every intermediate value of the (blocked or unblocked) elimination is a small dyadic rational (checked by an exact reference run in the generator)",
+                      "pstrf / semi / update exact streams: square roots only of squares of powers of two, all intermediate values small dyadic rationals (checked by exact reference runs in the generator: py_pstrf, chol_exact, py_chol_update); double-model streams: pivot order separated by a relative margin 1e-6 and rank >= n-1 (otherwise the last swap before a stop is decided by rounding noise)",
                       "right-hand sides with at least one column; zero right-hand sides are not generated for conjugate gradient (see report)"]
     ck.proofs()
     model = extract_model(PID, "C02Extract.v", "c02_driver.ml")
